@@ -100,6 +100,30 @@ def do_create(prefix: str, k: int) -> None:
         do_nextid(prefix, k)
 
 
+def do_symbolic() -> int:
+    """Other code wraps symbols of its own into the Symbolic wrappers (Average, FiniteDifference, ExactDifferential,
+    InexactDifferential): fresh symbols that merely PRINT like the symbols of the library's catalogue (K, T, p, V ...)
+    but have another dimension."""
+    import symplyphysics as sy
+    from symplyphysics import symbols as catalogue_symbols, units
+    from symplyphysics.core.operations import symbolic
+    from symplyphysics.core.symbols.symbols import DimensionSymbol
+    wrappers = [getattr(symbolic, n) for n in ("Average", "FiniteDifference", "ExactDifferential", "InexactDifferential")
+                if hasattr(symbolic, n)]
+    n = 0
+    seen = set()
+    for name in sorted(vars(catalogue_symbols)):
+        obj = vars(catalogue_symbols)[name]
+        if not isinstance(obj, DimensionSymbol) or not isinstance(obj, sy.Symbol) or obj.display_name in seen:
+            continue
+        seen.add(obj.display_name)
+        other = units.time if obj.dimension == units.length else units.length
+        for w in wrappers:
+            w(sy.Symbol(obj.display_name, other))
+            n += 1
+    return n
+
+
 def do_nextid(prefix: str, k: int) -> None:
     from symplyphysics.core.symbols.id_generator import next_id
     for _ in range(k):
@@ -520,6 +544,8 @@ def run(spec: dict) -> dict:
         kind = step[0]
         if kind == "thread":
             in_thread(step[1])
+        elif kind == "symbolic":
+            out["symbolic_wrappers_created"] = do_symbolic()
         elif kind == "create":
             do_create(step[1], int(step[2]))
         elif kind == "nextid":
